@@ -115,6 +115,31 @@ CLAIMED.update({
         technique='symbolic execution of rustc MIR with z3 from fabricated VM states (step lemmas), native replay through hooks', design='4/C05'),
 })
 
+CLAIMED.update({
+    'C09': dict(
+        text='Numeric order and equality, per ordered pair of the four representations: `impl PartialOrd / PartialEq for Number` executed from MIR on '
+             'symbolic operands (Fixnum: any i64; Float: any non-NaN double; BigInt: any integer up to 2^66 in magnitude, inside and outside the fixnum range; '
+             'Rational: any i32 numerator over a palette of denominators) against an exact oracle kept in the bit-vector and floating-point theories '
+             '(cross-multiplication, integer/float comparison by truncation and sign of the fraction, widened FP sort for rational/float); the variadic '
+             'procedures =, <, >, <=, >= over 2 and 3 operands and zero?/positive?/negative? are folded over the same oracle. Kani harnesses re-decide the '
+             'fixnum/float/bignum kernels on the compiled code (all 64-bit values, bignums up to 2^64).',
+        note='Two recorded classes (bignum vs float, rational vs float compared through a rounded conversion) are confirmed natively on their witnesses and '
+             'suppressed by role; everything else is a violation. Denominators off the palette, bignums beyond 2^66, NaN ordering and transitivity over '
+             'triples (implied by agreement with the exact order) are outside.',
+        technique='symbolic execution of rustc MIR with z3 (bit-vector + floating-point theories) and Kani/CBMC on the compiled code, native replay', design='4/C09'),
+    'C08': dict(
+        text='Exact arithmetic per operator and ordered pair of exact representations: `impl Add/Sub/Mul/Div/Rem for &Number`, Number::quotient, modulo, pow, '
+             'abs, floor, ceil, truncate, numerator, denominator executed from MIR on symbolic operands (any i64 fixnum, bignums up to 2^66, any i32 numerator over a '
+             'denominator palette). Oracle in 192-bit (768-bit for squares) bit-vector arithmetic: an exact result equals the exact rational value by '
+             'cross-multiplication; a float result is accepted only if the exact value is not representable (cheap sufficient test); quotient / remainder / modulo '
+             'satisfy the division lemma with truncating / flooring side conditions for divisors from a palette. Kani harnesses re-decide fixnum kernels on the '
+             'compiled code.',
+        note='Symbolic x symbolic multiplication is windowed; rational multiplication and / take the second operand from a palette of concrete numbers; expt takes '
+             'bases within 4 of stated centres, and above exponent 2 the solver enumerates the window. The error bound of inexact fall-backs is not checked. Two '
+             'recorded classes (32-bit rational limits) are suppressed by role. Variadic folds and float operands are outside.',
+        technique='symbolic execution of rustc MIR with z3 (bit-vectors, division lemma) and Kani/CBMC on the compiled code, native replay', design='4/C08'),
+})
+
 NOT_APPLICABLE = {
     'C01': 'whole-pipeline property over arbitrary programs (reader -> syntax-rules prelude -> compiler -> VM): no engine here can push a symbolic program through it; enumerating program shapes would be testing, not solver work (DESIGN.md section 5)',
     'C02': 'scoping is a relation between compile-time environment maps and run-time environment chains across nested activations of whole programs; the only solver-sized kernel restates the code (DESIGN.md section 5)',
